@@ -252,6 +252,9 @@ def processDepositsForPool (env : Env) (k : PoolKey) (s : State) (deps : List Tx
   | .crash c => .crash c
   | .reject e => .reject e
   | .ok (pool', totalLiqs) =>
+    -- the record would saturate while the full amount is handed out: the deposits are left unsettled
+    -- (`issued_before.checked_add(liq).is_none()`, added by the `fix:` for K-liq-saturation)
+    if pool.liqs + totalLiqs > U128_MAX then .ok s else
     let tip := s.tip906
     let r := Outcome.foldlM' (fun (coins : CoinMap) (tx : Tx) =>
       (multiplyFrac totalLiqs (mtsqrt (o0 tx).value (o1 tx).value) totalMtsqrt).bind fun v =>
